@@ -6,7 +6,7 @@ CONSTANTS
   Actives = {0, 1, 2}
   Starts = {2}
   InitBlocks = {1, 3}
-  MaxMsgs = 0
+  MaxMsgs = 1
   Slack = 1
   Faults = {"delay"}
   BadMsgs = {FALSE}
